@@ -64,24 +64,15 @@ impl<'a> UserModel<'a> {
                                 .update_cell(*row, *column, value)?;
                         }
                         None => {
-                            if spill_dims.is_some() {
-                                // The spill cells were already cleared above; only
-                                // the anchor itself remains.  range_clear_all would
-                                // re-expand to the full spill range and erase cells
-                                // that were just restored by earlier diffs in this
-                                // same undo operation (e.g. the cut source that
-                                // overlaps the paste target's spill area).
-                                let _ = self
-                                    .model
-                                    .workbook
-                                    .worksheet_mut(*sheet)?
-                                    .cell_clear_contents(*row, *column);
-                            } else {
-                                self.model
-                                    .workbook
-                                    .worksheet_mut(*sheet)?
-                                    .cell_clear_contents(*row, *column)?;
-                            }
+                            // There was no cell before the operation: remove the cell again
+                            // (clearing only its contents would keep the style the input implied,
+                            // e.g. the percent format of a typed `10%`). The spill cells of a
+                            // dynamic array were already cleared above; only the anchor remains,
+                            // and range_clear_all would re-expand to the full spill range.
+                            self.model
+                                .workbook
+                                .worksheet_mut(*sheet)?
+                                .remove_cell(*row, *column)?;
                         }
                     }
                 }
@@ -96,10 +87,12 @@ impl<'a> UserModel<'a> {
                 } => {
                     needs_evaluation = true;
                     // Clear all cells in the array formula range (anchor + spill cells).
+                    // (cells that did not exist before are removed, not left behind as empty
+                    // cells carrying a style)
                     let ws = self.model.workbook.worksheet_mut(*sheet)?;
                     for r in *row..*row + *height {
                         for c in *column..*column + *width {
-                            let _ = ws.cell_clear_contents(r, c);
+                            let _ = ws.remove_cell(r, c);
                         }
                     }
                     // Restore all cells that existed before the array formula was placed.
